@@ -146,7 +146,7 @@ def gen_sched_case(rng):
     a, b = pts[k], pts[k + 1]
     slm_end = rng.choice([0.0, a, b, (a + b) / 2, a + (b - a) / 4, a + 3 * (b - a) / 4, pts[1] / 2, pts[1] / 4, pts[-1], pts[-1] + 5.0])
     backend = rng.choice(T_BACKENDS)
-    nq = rng.choice([2, 3]) if backend == "sv" else rng.choice([2, 3, 4])
+    nq = rng.choice([2, 3]) if backend == "sv" else rng.choice([2, 3, 4, 5])
     # state-preparation error: the dark-atom filter is installed (also with an all-False mask)
     bad = None
     if rng.random() < 0.6:
@@ -155,9 +155,17 @@ def gen_sched_case(rng):
         bad = [False] * nq
         for i in rng.sample(range(nq), min(nb, max(max_bad, 0))):
             bad[i] = True
+    # forced site order (emu-mps with optimize_qubit_ordering): mostly permutations that are not involutions
+    perm = None
+    if backend != "sv" and nq >= 3 and rng.random() < 0.5:
+        for _ in range(20):
+            perm = list(range(nq))
+            rng.shuffle(perm)
+            if any(perm[perm[i]] != i for i in range(nq)):
+                break
     return dict(grid=pts, slm_end=slm_end, backend=backend, obs0=rng.random() < 0.5,
-                reorder=(backend != "sv" and bad is None and rng.random() < 0.07), nq=nq, bad=bad,
-                slm_target=rng.randrange(nq))
+                reorder=(backend != "sv" and bad is None and perm is None and rng.random() < 0.07), nq=nq, bad=bad,
+                slm_target=rng.randrange(nq), perm=perm)
 
 
 T_BACKENDS = ["sv", "mps", "dmrg"]
@@ -170,7 +178,7 @@ def sched_mats(c):
     full = torch.zeros(nq, nq, dtype=torch.float64)
     for i in range(nq):
         for j in range(i):
-            full[i, j] = full[j, i] = float(4 + 2 * i + j)
+            full[i, j] = full[j, i] = float(4 + 5 * i + j)       # all pairs distinct
     masked = full.clone()
     t = c.get("slm_target", 0)
     masked[t] = 0.0
@@ -186,7 +194,7 @@ def run_sched(c):
     obs = [Occupation(evaluation_times=[0.0, 1.0] if c["obs0"] else [1.0])]
     kw = {}
     if c["backend"] != "sv":
-        kw["optimize_qubit_ordering"] = c["reorder"]
+        kw["optimize_qubit_ordering"] = bool(c["reorder"] or c.get("perm"))
         if c["backend"] == "dmrg":
             from emu_mps import Solver
             kw["solver"] = Solver.DMRG
@@ -196,7 +204,7 @@ def run_sched(c):
     bad = c.get("bad")
     data = T.zero_data(len(tt) - 1, nq, tt, U=full, masked_U=masked, slm_end=c["slm_end"],
                        bad_atoms=bad, state_prep_error=(0.1 if bad is not None else 0.0))
-    res, log = T.run_stubbed(c["backend"], data, cfg)
+    res, log = T.run_stubbed(c["backend"], data, cfg, force_perm=c.get("perm"))
     return log["queries"], [m.tolist() for m in log["step_mats"]]
 
 
@@ -216,15 +224,20 @@ def expected_step_mats(c):
                     if bad[i]:
                         m[i] = 0.0
                         m[:, i] = 0.0
-            else:
+            elif c.get("perm") is None:
                 keep = [i for i in range(nq) if not bad[i]]
                 m = m[keep][:, keep]
+        if c["backend"] != "sv" and c.get("perm") is not None:
+            # site k holds atom perm[k]; sites holding a badly prepared atom are dropped: entry (a, b) must be the
+            # register-order interaction of the two atoms the sites hold
+            atoms = [a for a in c["perm"] if bad is None or not bad[a]]
+            m = m[atoms][:, atoms]
         out.append((q, m.tolist()))
     return out
 
 
 def sched_oracle(c, queries, used):
-    if c["backend"] == "dmrg" or c["reorder"]:
+    if c["reorder"]:
         return None
     exp = expected_step_mats(c)
     if len(used) != len(exp):
@@ -253,18 +266,20 @@ def sched_correspondence(rep, rng, n):
         if c["backend"] == "sv":
             lines.append(f"ia.sv {f2b(0.5)} {lst(f2b(x) for x in tt)} {len(tt) - 1} {int(c['obs0'])}")
         else:
-            lines.append(f"ia.mps {f2b(0.5)} {lst(f2b(x) for x in tt)} {len(tt) - 1} {int(c['reorder'])}")
+            lines.append(f"ia.mps {f2b(0.5)} {lst(f2b(x) for x in tt)} {len(tt) - 1} {int(bool(c['reorder'] or c.get('perm')))}")
         expect.append(lst(f2b(x) for x in queries))
         meta.append(c)
-        if c["backend"] != "dmrg" and not c["reorder"]:
+        if not c["reorder"]:
+            pm = c.get("perm")
             full, masked = sched_mats(c)
             bad = c.get("bad")
             lines.append(f"ia.steps {'sv' if c['backend'] == 'sv' else 'mps'} {f2b(0.5)} {c['nq']} "
                          f"{lst(f2b(x) for x in full.flatten().tolist())} {lst(f2b(x) for x in masked.flatten().tolist())} "
                          f"{f2b(c['slm_end'])} {'N' if bad is None else lst(str(int(b)) for b in bad)} {len(tt) - 1} "
-                         f"{lst(f2b(x) for x in tt)}")
+                         f"{lst(f2b(x) for x in tt)} {'N' if pm is None else lst(str(x) for x in pm)}")
             expect.append(";".join(lst(f2b(x) for row in m for x in row) for m in used))
             meta.append(c)
+        rep.hist("site_order", "register" if not c.get("perm") else ("forced, %d atoms" % c["nq"]))
         rep.hist("dark_filter", "none" if c.get("bad") is None else f"{sum(c['bad'])} bad")
         rep.hist("sched_backend", c["backend"])
         k = next((i for i in range(len(tt) - 1) if tt[i] < c["slm_end"] <= tt[i + 1]), None)
@@ -287,7 +302,7 @@ def check(rep: Report, tier: str, seed: int) -> None:
         "slm_end_time, _sequence._slm_mask_targets are set directly",
         "emu-mps keeps its previous Hamiltonian when the new matrix is allclose(atol=1e-10, rtol=1e-8) to the old one: an "
         "SLM mask that changes interactions by less than that is not applied on time (not exercised: test matrices differ by 4)",
-        "DMRG runs and runs with qubit reordering only compare the query times (no per-step matrix is compared)",
+        "runs where RCM picks the order only compare the query times; forced site orders (minimize_bandwidth patched to return a non-involutive permutation) compare the matrix of every step",
         "state_prep_error > 0 runs use hand-set bad_atoms masks (all False, one or two True); emu-mps keeps >= 2 good atoms",
     ]
     T.compat.install()
